@@ -50,9 +50,9 @@ var plans = map[string][]run{
 	},
 	"C20": {
 		{Name: "sched", Tags: []string{"verifsched"}, Instrument: "sched", Shards: 16, OneCPU: true},
-		{Name: "race", Tags: []string{"verifrace"}, Race: true},
+		{Name: "race", Tags: []string{"verifrace"}, Race: true, Shards: 3},
 		{Name: "sched-purego", Tags: []string{"verifsched", "purego"}, Instrument: "sched", Shards: 8, OneCPU: true},
-		{Name: "race-purego", Tags: []string{"verifrace", "purego"}, Race: true},
+		{Name: "race-purego", Tags: []string{"verifrace", "purego"}, Race: true, Shards: 2},
 	},
 	"C01": {{Name: "default", Carry: true}},
 	"C02": {{Name: "default", Carry: true}},
